@@ -397,9 +397,9 @@ impl BuiltInFunction {
 
                 if let Some((result, _)) = result {
                     Ok((
-                        Some(Primitive::Optional(Some(Box::new(Primitive::Int(
+                        Some(Primitive::Int(
                             result.try_into().with_context(|| format!("vector index of element `{result}` could not fit in an int (i32)"))?,
-                        ))))),
+                        )),
                         None,
                     ))
                 } else {
@@ -480,9 +480,9 @@ impl BuiltInFunction {
 
                 if let Some(start) = s.find(o) {
                     Ok((
-                        Some(Primitive::Optional(Some(Box::new(Primitive::Int(
+                        Some(Primitive::Int(
                             start.try_into().with_context(|| format!("index of found string pattern `{start}` could not fit in an int (i32)"))?,
-                        ))))),
+                        )),
                         None,
                     ))
                 } else {
@@ -598,7 +598,7 @@ impl BuiltInFunction {
 
                 if let Ok(num) = s.parse::<i32>() {
                     Ok((
-                        Some(Primitive::Optional(Some(Box::new(Primitive::Int(num))))),
+                        Some(Primitive::Int(num)),
                         None,
                     ))
                 } else {
@@ -618,7 +618,7 @@ impl BuiltInFunction {
 
                 if let Ok(num) = s.parse::<i128>() {
                     Ok((
-                        Some(Primitive::Optional(Some(Box::new(Primitive::BigInt(num))))),
+                        Some(Primitive::BigInt(num)),
                         None,
                     ))
                 } else {
@@ -647,7 +647,7 @@ impl BuiltInFunction {
                         .with_context(|| format!("`{radix}` is an invalid radix"))?,
                 ) {
                     Ok((
-                        Some(Primitive::Optional(Some(Box::new(Primitive::Int(num))))),
+                        Some(Primitive::Int(num)),
                         None,
                     ))
                 } else {
@@ -676,7 +676,7 @@ impl BuiltInFunction {
                         .with_context(|| format!("`{radix}` is an invalid radix"))?,
                 ) {
                     Ok((
-                        Some(Primitive::Optional(Some(Box::new(Primitive::BigInt(num))))),
+                        Some(Primitive::BigInt(num)),
                         None,
                     ))
                 } else {
@@ -690,7 +690,7 @@ impl BuiltInFunction {
 
                 if let Ok(b) = s.parse::<bool>() {
                     Ok((
-                        Some(Primitive::Optional(Some(Box::new(Primitive::Bool(b))))),
+                        Some(Primitive::Bool(b)),
                         None,
                     ))
                 } else {
@@ -704,7 +704,7 @@ impl BuiltInFunction {
 
                 if let Ok(num) = s.parse::<f64>() {
                     Ok((
-                        Some(Primitive::Optional(Some(Box::new(Primitive::Float(num))))),
+                        Some(Primitive::Float(num)),
                         None,
                     ))
                 } else {
@@ -724,7 +724,7 @@ impl BuiltInFunction {
 
                 if let Ok(num) = u8::from_str_radix(s, radix) {
                     Ok((
-                        Some(Primitive::Optional(Some(Box::new(Primitive::Byte(num))))),
+                        Some(Primitive::Byte(num)),
                         None,
                     ))
                 } else {
